@@ -4,16 +4,16 @@ import os
 
 # property -> rules deciding its structural clauses (DESIGN.md section 4)
 PROPS = {
-    'C01': ['DISPATCH', 'ACDUAL', 'SYMIDX', 'ORDTOTAL', 'FRAMERESET', 'MERGE'],
+    'C01': ['DISPATCH', 'ACDUAL', 'SYMIDX', 'ORDTOTAL', 'FRAMERESET', 'MERGE', 'CACHELIFE'],
     'C02': ['UNIONCONTRIB', 'PRODUCT', 'WORKLIST', 'COW'],
     'C03': ['SIZEEQ', 'WORKLIST', 'DRAIN', 'COW'],
-    'C04': ['KIND', 'SIMMAP', 'COPYALL'],
-    'C05': ['SIMMAP', 'KIND', 'COW'],
-    'C07': ['DISPATCH', 'ACDUAL', 'MERGE', 'PARALLEL', 'COLLECTALL'],
+    'C04': ['KIND', 'SIMMAP', 'COPYALL', 'LOOPBOUND'],
+    'C05': ['SIMMAP', 'KIND', 'LOOPBOUND', 'DRAIN', 'WORKLIST', 'SIZEEQ', 'COW'],
+    'C07': ['DISPATCH', 'ACDUAL', 'MERGE', 'PARALLEL', 'COLLECTALL', 'CACHELIFE'],
     'C08': ['UNIONCONTRIB', 'PRODUCT', 'WORKLIST', 'DRAIN', 'INIT', 'COLLECTALL'],
     'C09': ['DISPATCH', 'ACDUAL', 'MEMO', 'HASHEQ', 'ORDTOTAL'],
     'C10': ['UNIONCONTRIB', 'PRODUCT', 'PAIRFIELD', 'FINCHK', 'WORKLIST', 'DRAIN', 'PARAMPATH', 'COW'],
-    'C11': ['COW', 'CLEARALL', 'HASHCONS'],
+    'C11': ['COW', 'CLEARALL', 'HASHCONS', 'CACHELIFE'],
     'C13': ['TEXT', 'PARAMPATH', 'PAIRFIELD'],
     'C12': ['COW', 'HASHCONS', 'ITER', 'CLEARALL', 'PARAMPATH'],
     'C14': ['KIND', 'COW'],
@@ -21,7 +21,7 @@ PROPS = {
     'C17': ['CANON', 'TEXT'],
     'C18': ['REFCNT'],
     'C19': ['KIND', 'SIMMAP', 'DISPATCH'],
-    'C20': ['INIT', 'FALLOFF', 'PAIRFIELD', 'COPYALL', 'FRAMERESET'],
+    'C20': ['INIT', 'FALLOFF', 'PAIRFIELD', 'COPYALL', 'FRAMERESET', 'CACHELIFE', 'LOOPBOUND'],
 }
 
 # (property, rule) -> regex on the repo-relative file: only sites in matching files are attributed to that
@@ -50,6 +50,8 @@ FILTER = {
     ('C15', 'KIND'): r'explicit_tree_candidate', ('C15', 'HASHCONS'): r'explicit_tree_candidate', ('C15', 'COW'): r'explicit_tree_candidate|explicit_tree_unreach',
     ('C03', 'DRAIN'): r'explicit_tree', ('C08', 'DRAIN'): r'bdd_', ('C10', 'DRAIN'): r'explicit_finite',
     ('C10', 'PARAMPATH'): r'explicit_finite', ('C12', 'PARAMPATH'): r'explicit_tree',
+    ('C05', 'DRAIN'): r'explicit_tree', ('C05', 'WORKLIST'): r'explicit_tree_unreach', ('C05', 'SIZEEQ'): r'explicit_tree',
+    ('C01', 'CACHELIFE'): r'explicit_tree|util/cache', ('C07', 'CACHELIFE'): r'tree_incl_down|util/cache', ('C11', 'CACHELIFE'): r'util/cache',
     ('C12', 'COW'): r'explicit_tree',
     ('C14', 'COW'): r'explicit_tree', ('C14', 'KIND'): r'explicit_tree|explicit_finite|bdd_',
     ('C19', 'DISPATCH'): r'aut_base\.hh|explicit_tree_incl\.cc', ('C19', 'KIND'): r'explicit_tree',
